@@ -381,7 +381,9 @@ func rewriteFile(path string) {
 		break
 	}
 	if !added {
-		die("%s: no import declaration to extend", path)
+		// a file without imports (it only gained one through the rewrite)
+		gd := &ast.GenDecl{Tok: token.IMPORT, Specs: []ast.Spec{&ast.ImportSpec{Path: &ast.BasicLit{Kind: token.STRING, Value: strconv.Quote(simrtPath)}}}}
+		f.Decls = append([]ast.Decl{gd}, f.Decls...)
 	}
 
 	var buf bytes.Buffer
